@@ -16,7 +16,7 @@
 //          I.call.idx.ch.u.m.p   item idx of call        B.call   call begins      L.call.n   results returned
 //          R.call.idx.kind.id.seq  result (kind 0 ok,1 reason,2 error)             E.call   call returned
 //          Q.req.ch.attempt  append request   M.req.u.m.p.id  its messages
-//          P.ch.u.m.p.id.seq  record persisted by the fake store
+//          P.ch.u.m.p.id.seq  record persisted by the fake store     K.u.m  a lookup answered with an error
 package main
 
 import (
@@ -330,6 +330,7 @@ func (p *c29Port) AppendBatch(_ context.Context, req channelappend.AppendBatchRe
 func (p *c29Port) LookupSend(_ context.Context, q channelappend.IdempotencyQuery) (channelappend.SendResult, bool, error) {
 	n := p.lk.Add(1)
 	if p.failPct > 0 && c29mix(p.seed^0x1f, uint64(n))%37 == 0 {
+		p.log.add("K.%d.%d", c29Num(q.FromUID), c29Num(q.ClientMsgNo))
 		return channelappend.SendResult{}, false, channelappend.ErrRouteNotReady
 	}
 	if q.FromUID == "" || q.ClientMsgNo == "" {
